@@ -87,6 +87,7 @@ type Client struct {
 }
 
 type Req struct {
+	Kind    string              `json:"kind,omitempty"` // "" serve the request | "match": call Router.Match only
 	Method  string              `json:"m"`
 	Path    string              `json:"p"`
 	WFaults []WFault            `json:"wf,omitempty"`
